@@ -35,7 +35,7 @@ def main():
         step('configure', 'cmake -G Ninja -S . -B _build -DCMAKE_BUILD_TYPE=RelWithDebInfo -DPISTACHE_BUILD_TESTS=ON >/dev/null', True)
     step('build clean tree', 'cmake --build _build -j8 2>&1 | tail -3', True)
     lib = sh('ls _build/src/libpistache.a', cwd=wt).stdout.strip()
-    demo = 'g++ -std=c++17 -O1 -I%s/include %s/demo.cc %s/%s -lpthread -o /tmp/seed_demo_%s' % (wt, dl, wt, lib, a.id)
+    demo = 'g++ -std=c++17 -O1 -I%s/include -I%s/_build/include %s/demo.cc %s/%s -lpthread -o /tmp/seed_demo_%s' % (wt, wt, dl, wt, lib, a.id)
     step('demo build (clean)', demo, True)
     step('demo run (clean)', 'timeout 300 /tmp/seed_demo_%s' % a.id, True)
     step('apply patch', 'git apply %s' % patch, True)
